@@ -221,10 +221,12 @@ class Buffer:
     #   - NB: may return ParagraphToken
     #   - buffer remains unchanged
     #
-    def look_ahead(self):
+    def look_ahead(self, stop_lang=False):
         buf = []
         tok = self.cur()
         while self.is_space(tok):
+            if stop_lang and type(tok) is defs.LanguageToken:
+                break
             buf.append(tok)
             tok = self.next()
         self.back(buf)
